@@ -13,8 +13,10 @@ VERIF = os.path.dirname(os.path.dirname(os.path.abspath(__file__)))
 src_dirs = sorted(glob.glob('/tmp/wt/C*_out/m*'))
 only = sys.argv[1:]
 for d in src_dirs:
-    prop = os.path.basename(os.path.dirname(d)).split('_')[0]
-    name = '%s-%s' % (prop, os.path.basename(d))
+    base = os.path.basename(os.path.dirname(d)).split('_')[0]
+    prop = base[:3]
+    name = '%s-%s%s' % (prop, 'r2' if base.endswith('b') else '',
+                        os.path.basename(d))
     if only and name not in only:
         continue
     vet = os.path.join(d, 'vet.json')
@@ -26,6 +28,8 @@ for d in src_dirs:
         print(name, 'NOT confirmed, skipped')
         continue
     dst = os.path.join(VERIF, 'seeded', name)
+    if os.path.exists(os.path.join(dst, 'meta.json')) and not only:
+        continue
     os.makedirs(dst, exist_ok=True)
     for f in ('patch.diff', 'demo.py'):
         shutil.copy(os.path.join(d, f), os.path.join(dst, f))
